@@ -12,12 +12,16 @@ import (
 var registry = map[string]hlib.RunFn{}
 
 func main() {
-	if len(os.Args) < 3 {
+	if len(os.Args) < 3 && !(len(os.Args) == 2 && os.Args[1] == "C16ref") {
 		fmt.Fprintln(os.Stderr, "usage: h <property> run|replay [flags]")
 		os.Exit(2)
 	}
+	if os.Args[1] == "C16ref" {
+		refMain()
+		return
+	}
 	fn, ok := registry[os.Args[1]]
-	if !ok {
+	if !ok || fn == nil {
 		fmt.Fprintln(os.Stderr, "unknown property", os.Args[1])
 		os.Exit(2)
 	}
